@@ -162,14 +162,22 @@ def real_load_resources(schema, resources, main=MAIN, overrides=()):
         return ("internal", e, zf, inner)
 
 
-def materialise(resources, main, prefix="file:///zcv/"):
-    """Write in-memory resources to real files under a fresh temporary directory.
+def materialise(resources, main, prefix="file:///zcv/", reuse=False):
+    """Write in-memory resources to real files under a fresh temporary directory -- or, with
+    reuse=True, under one directory per process that every call re-populates, so that the same
+    path names carry different contents from one case to the next.
 
     -> (resources keyed by the real file:/// URLs, real main URL, directory to remove)."""
     import os
+    import shutil
     import tempfile
     from urllib.request import pathname2url
-    root = tempfile.mkdtemp(prefix="zcv-files-")
+    if reuse:
+        root = os.path.join(tempfile.gettempdir(), "zcv-fixed-%d" % os.getpid())
+        shutil.rmtree(root, ignore_errors=True)
+        os.makedirs(root)
+    else:
+        root = tempfile.mkdtemp(prefix="zcv-files-")
     out = {}
     newmain = None
     for url, text in resources.items():
